@@ -149,8 +149,16 @@ def eof_rule(repo: Repo, rep: Report, rid: str) -> None:
         if f is not None:
             impls[f.key] = f
     n = 0
+    from .c05 import folded_slots
+
+    folded = folded_slots(repo, ("_read_array",))
     for f in impls.values():
         n += 1
+        if f.key in folded and f.qualname != "MetaType._read_array":
+            bad = [b for b in folded[f.key] if "EOF" in str(b[2]) or "eof" in str(b[2]).lower()]
+            rep.check(not bad, rid, f"{f.key}:eof", "folded (codec fold): the EOF count reads every remaining whole element",
+                      (f"{f.qualname}: case '{bad[0][2]}' ({bad[0][1]}): got {bad[0][3]!r}, reference {bad[0][4]!r}") if bad else "", f.loc())
+            continue
         cnt = f.params[2] if len(f.params) > 2 else "count"
         cmp_eof = any(isinstance(x, ast.Compare) and {norm(x.left), norm(x.comparators[0])} == {cnt, "EOF"} for x in walk_body(f.node.body))
         delegates = any(isinstance(c, ast.Call) and call_name(c) == "_read_array" and len(c.args) >= 2 and norm(c.args[1]) == cnt for c in walk_body(f.node.body))
@@ -282,7 +290,7 @@ def count_text_rule(repo: Repo, rep: Report, rid: str) -> None:
     for fi in repo.module("parser.py").functions.values():
         mk = [c for c in walk_body(fi.node.body) if isinstance(c, ast.Call) and call_name(c) == "Expression" and len(c.args) == 2]
         texts = {norm(c.args[1]) for c in mk}
-        if not texts or fi.name in ("_constant", "_constants", "_enum", "_enums"):
+        if not texts or fi.name.startswith(("_constant", "_enum")):
             continue
         n += 1
         bad = [c for c in walk_body(fi.node.body) if isinstance(c, ast.Call) and call_name(c) in ("int", "literal_eval", "float", "eval") and c.args
@@ -357,17 +365,23 @@ def run(repo: Repo, rep: Report, tier: str) -> None:
     array_guard_rule(repo, rep, "C07.R4")
     eof_rule(repo, rep, "C07.R5")
     fallback_rule(repo, rep, "C07.R6")
-    nesting_rule(repo, rep, "C07.R7")
+    from .c13 import token_parser_shape as _tps
+
+    _tps(repo, rep, nesting_rule, "C07.R7")
     from .c10 import lookup_order_rule
 
-    lookup_order_rule(repo, rep, "C07.R8")
+    from .c10 import lookup_order_shared
+
+    lookup_order_shared(repo, rep, "C07.R8")
     from .c05 import codec_fold_rule
 
     codec_fold_rule(repo, rep, "C07.R9", slots=("_read_array", "_read_0", "_write_array", "_write_0"))
     from .c02 import default_substitution_rule
 
     default_substitution_rule(repo, rep, "C07.R10")
-    parse_time_count_rule(repo, rep, "C07.R11")
+    from .c13 import token_parser_shape
+
+    token_parser_shape(repo, rep, parse_time_count_rule, "C07.R11")
     array_count_fold_rule(repo, rep, "C07.R12")
     count_text_rule(repo, rep, "C07.R13")
     from .memo import memo_rule
